@@ -143,6 +143,9 @@ func validationBarrier(c *core.Check, fn *ssa.Function, sinks []string) (bool, s
 // roots and turns each into an obligation.
 func orderCheck(c *core.Check, rule string, roots []*ssa.Function, barriers []*ssa.Function, table map[string]discharge, skipKinds map[string]string) {
 	prog := c.Prog
+	for _, pk := range prog.Pkgs {
+		rules.RegisterDecls(pk.TypesInfo, pk.Syntax)
+	}
 	rules.PureFunc = func(fn *types.Func) bool { return ssaPure(prog.SSA().FuncValue(fn), 0, map[*ssa.Function]bool{}) }
 	isBarrier := map[*ssa.Function]bool{}
 	for _, b := range barriers {
